@@ -363,3 +363,45 @@ def is_increment(f, e):
         return True
     c = ir.const_of(f, e.val) if e.val is not None else None
     return c is not None and ((e.rop in ("add", "xadd") and c == 1) or (e.rop == "sub" and c == -1))
+
+
+def natural_loop(f, ph):
+    """block ids of the natural loop(s) whose header holds the phi `ph`: the header plus every block that reaches one of its latches
+    (incoming blocks the header dominates) without passing through the header"""
+    hdr = ph.blk.id
+    out = {hdr}
+    work = [blk for v, blk in ph.d["inc"] if f.bdom(hdr, blk)]
+    while work:
+        b = work.pop()
+        if b in out:
+            continue
+        out.add(b)
+        work.extend(f.blocks[b].pred)
+    return out
+
+
+def counted_loops(f):
+    """[(phi, inits, steps, stays)] for every loop-header phi of integer type compared in a conditional edge that stays in its natural loop:
+    inits = constant (or None) per entry from outside, steps = expression per back edge, stays = [(atom, branch inst)]"""
+    out = []
+    for ph in f.all_insts():
+        if ph.op != "phi" or not str(ph.d.get("ty", "")).startswith("i"):
+            continue
+        hdr = ph.blk.id
+        if not any(f.bdom(hdr, blk) for v, blk in ph.d["inc"]):
+            continue
+        nl = natural_loop(f, ph)
+        stays = []
+        for b in nl:
+            for s_ in f.blocks[b].succ:
+                if s_ not in nl or len(f.blocks[b].succ) < 2:
+                    continue
+                for a in ir.edge_atoms(f, b, s_):
+                    if len(a) == 3 and (a[1] == ("phi", ph.id) or a[2] == ("phi", ph.id)):
+                        stays.append((a, f.blocks[b].insts[-1]))
+        if not stays:
+            continue
+        inits = [ir.const_of(f, v) for v, blk in ph.d["inc"] if not f.bdom(hdr, blk)]
+        steps = [ir.expr(f, v, 3) for v, blk in ph.d["inc"] if f.bdom(hdr, blk)]
+        out.append((ph, inits, steps, stays))
+    return out
